@@ -508,8 +508,10 @@ class Gen:
             r = self.r.random()
             if r < 0.3:
                 self.emit("bad_hash", hx(bytes(self.r.randrange(256) for _ in range(self.r.choice([0, 5, 31, 33])))))
-            elif r < 0.6:
+            elif r < 0.5:
                 self.emit("str_cmp", self.text(), self.text())
+            elif r < 0.6:
+                self.emit("misc", self.text())
             elif len(self.actors) > 1:
                 a, b = self.r.choice(self.actors), self.r.choice(self.actors)
                 self.emit("actor_cmp", a, b)
